@@ -638,6 +638,12 @@ func (e *Engine) Enumerate(fn *ssa.Function) []*Obligation {
 					}
 				}
 			case *ssa.TypeAssert:
+				if !x.CommaOk && types.Identical(x.AssertedType, x.X.Type()) {
+					// the nil check go/ssa emits when a method value is taken from an interface
+					// (i.M as a value): it fails exactly when calling i.M() would - a nil
+					// interface, which like every nil dereference is outside the PO kinds
+					continue
+				}
 				if !x.CommaOk {
 					if typeGuarded(fn, x) {
 						out = append(out, &Obligation{Fn: fn, Instr: in, Kind: "typeassert", Expr: x.AssertedType.String(), Goals: []Ineq{{Const(0), "dominated by the ok edge of a checked assertion of the same value to the same type"}}})
